@@ -128,7 +128,7 @@ func C17(c *vf.Check) {
 	var scases []srcCase
 	var sstates, strans int64
 	for _, fam := range []string{"ctl", "yfl"} {
-		consts := map[string]string{"Family": `"` + fam + `"`, "MaxSize": "2", "TapeLen": "3", "MaxCalls": itoa(calls), "Budget": "200", "OpenFlags": "{}", "Lazy": "FALSE", "TapeRep": "12", "PrefixLen": "1"}
+		consts := map[string]string{"Family": `"` + fam + `"`, "MaxSize": "2", "TapeLen": "3", "MaxCalls": itoa(calls), "Budget": "200", "OpenFlags": "{}", "Lazy": "FALSE", "TapeRep": "12", "PrefixLen": "2"}
 		cs, sres := collectSrcCases(c, "MC_Src", "MC_Src.cfg", consts, 30*time.Minute)
 		scases = append(scases, cs...)
 		sstates += sres.Distinct
@@ -292,7 +292,7 @@ func C17(c *vf.Check) {
 	c.Cov["distinct_nontrivial"] = int64(nontrivial)
 	c.Cov["programs"] = int64(nterms + len(progs.vals))
 	c.Cov["compiler_runs"] = int64(runs)
-	c.Cov["rule"] = fmt.Sprintf("every loop term of T_term (size<=MaxSize) and every loop program of F_ctl and F_yfl (size<=2, incl. for-post YieldFrom of possibly empty, non-recursive delegates) x every (prefix<=1 bit, pattern<=3 bits) tape for which some advance of the model run passes 12 repetitions without yielding; replayed on the real runtime / compiled code with the pattern repeated %d times over 3 advances, call depth (runtime.Callers) sampled at recorder events 10,100,1000,.. of EVERY advance; growth within an advance must stay below %d frames; plus recursive delegation %d levels deep with constant depth increment per level; non-trivial = run with an advance of >= 1000 events", reps, growthLimit, depthLevels)
+	c.Cov["rule"] = fmt.Sprintf("every loop term of T_term (size<=MaxSize) and every loop program of F_ctl and F_yfl (size<=2, incl. for-post YieldFrom of possibly empty, non-recursive delegates) x every (prefix<=2 bits, pattern<=3 bits) tape for which some advance of the model run passes 12 repetitions without yielding; replayed on the real runtime / compiled code with the pattern repeated %d times over 3 advances, call depth (runtime.Callers) sampled at recorder events 10,100,1000,.. of EVERY advance; growth within an advance must stay below %d frames; plus recursive delegation %d levels deep with constant depth increment per level; non-trivial = run with an advance of >= 1000 events", reps, growthLimit, depthLevels)
 	c.Assumptions = append(c.Assumptions, "real stack frames are measured by the harness (runtime.Callers), TLA+ only states the abstract bound (depth of CPS activations) and selects the cases",
 		"threshold 1000 frames: generous so that any implementation satisfying the property passes; growth of one frame per iteration is caught after 2*10^4 iterations (quick) already")
 }
